@@ -971,6 +971,7 @@ func ruleC14(w *World) {
 	w.floor("C14.R1", 3)
 	w.floor("C14.R2", 4)
 	w.floor("C14.R3", 3)
+	w.floor("C14.R5", 1)
 	w.floor("C14.R4", 3)
 	keySize, _ := w.constInt(randomPath, "keySize")
 	nonce, _ := w.constInt(randomPath, "nonceSize")
@@ -1034,11 +1035,103 @@ func ruleC14(w *World) {
 		}
 		c := P(sf, 0)
 		want := []string{c + ".core.seed[:]", c + ".core.customizer[:]", fmt.Sprintf("make([]byte,%d)", cnt)}
-		// counter buffer may be rendered as heap makeslice
-		okk := len(order) == 3 && order[0] == want[0] && order[1] == want[1] && (order[2] == want[2] || strings.Contains(order[2], "makeslice"))
-		w.check(okk, "C14.R2", fnKey(sf)+"/layout", sf.Pos(), "Store = seed ‖ customizer ‖ counter", "Store appends "+strings.Join(order, " ‖ ")+", expected seed ‖ customizer ‖ counter")
 		pu := callsTo(sf, "PutUint64")
-		okk = len(pu) == 1 && strings.Contains(render(pu[0].Common().Args[0]), "LittleEndian") && render(pu[0].Common().Args[2]) == c+".core.bytesCounter"
+		if len(order) == 0 {
+			// the other way of writing the same layout: a buffer of the full length filled in place —
+			// copy(buf[a:b], src) and PutUint64(buf[a:…], counter) — gives the table offset → (length, source)
+			type piece struct {
+				off, n int64
+				src    string
+			}
+			var pieces []piece
+			var buf ssa.Value
+			bad := ""
+			bounds := func(v ssa.Value, at ssa.Instruction) (ssa.Value, int64, int64, bool) {
+				sl, ok := stripConv(v).(*ssa.Slice)
+				if !ok {
+					return nil, 0, 0, false
+				}
+				var lo, hi int64 = 0, -1
+				if sl.Low != nil {
+					l, h, k := w.intBound(sl.Low, at)
+					if !k || l != h {
+						return nil, 0, 0, false
+					}
+					lo = l
+				}
+				if sl.High != nil {
+					l, h, k := w.intBound(sl.High, at)
+					if !k || l != h {
+						return nil, 0, 0, false
+					}
+					hi = l
+				}
+				return sl.X, lo, hi, true
+			}
+			instrs(sf, func(ins ssa.Instruction) {
+				cl, ok := ins.(*ssa.Call)
+				if !ok {
+					return
+				}
+				if bi, ok := cl.Call.Value.(*ssa.Builtin); ok && bi.Name() == "copy" {
+					b, lo, hi, k := bounds(cl.Call.Args[0], cl)
+					if !k || hi < 0 {
+						bad = "a copy into the state buffer has no constant bounds"
+						return
+					}
+					if buf != nil && b != buf {
+						bad = "pieces are written into different buffers"
+					}
+					buf = b
+					pieces = append(pieces, piece{lo, hi - lo, render(cl.Call.Args[1])})
+				}
+			})
+			for _, p := range pu {
+				b, lo, hi, k := bounds(p.Common().Args[1], p.(ssa.Instruction))
+				if !k {
+					bad = "the counter is not written at a constant offset"
+					continue
+				}
+				if buf != nil && b != buf {
+					bad = "pieces are written into different buffers"
+				}
+				buf = b
+				if hi >= 0 && hi-lo != int64(cnt) {
+					bad = "the counter slot is not 8 bytes"
+				}
+				pieces = append(pieces, piece{lo, int64(cnt), "counter"})
+			}
+			sort.Slice(pieces, func(i, j int) bool { return pieces[i].off < pieces[j].off })
+			okk := bad == "" && len(pieces) == 3 &&
+				pieces[0] == piece{0, int64(keySize), want[0]} && pieces[1] == piece{int64(keySize), int64(nonce), want[1]} && pieces[2] == piece{int64(keySize + nonce), int64(cnt), "counter"}
+			if okk {
+				// the buffer is a make of exactly the total length and is what Store returns
+				base := sliceBase(buf)
+				switch base.(type) {
+				case *ssa.MakeSlice, *ssa.Alloc: // make with a variable / a constant length
+				default:
+					okk = false
+				}
+				if okk {
+					for _, r := range returns(sf) {
+						l, h, k := w.lenBound(r.Results[0], r)
+						if sliceBase(r.Results[0]) != base || !k || l != h || l != int64(keySize+nonce+cnt) {
+							okk = false
+						}
+					}
+				}
+			}
+			var got []string
+			for _, p := range pieces {
+				got = append(got, fmt.Sprintf("[%d,+%d)=%s", p.off, p.n, p.src))
+			}
+			w.check(okk, "C14.R2", fnKey(sf)+"/layout", sf.Pos(), "Store = seed ‖ customizer ‖ counter (buffer filled in place)", "Store writes "+strings.Join(got, " ")+" "+bad+", expected seed ‖ customizer ‖ counter in one buffer of the total length")
+		} else {
+			// counter buffer may be rendered as heap makeslice
+			okk := len(order) == 3 && order[0] == want[0] && order[1] == want[1] && (order[2] == want[2] || strings.Contains(order[2], "makeslice"))
+			w.check(okk, "C14.R2", fnKey(sf)+"/layout", sf.Pos(), "Store = seed ‖ customizer ‖ counter", "Store appends "+strings.Join(order, " ‖ ")+", expected seed ‖ customizer ‖ counter")
+		}
+		okk := len(pu) == 1 && strings.Contains(render(pu[0].Common().Args[0]), "LittleEndian") && render(pu[0].Common().Args[2]) == c+".core.bytesCounter"
 		w.check(okk, "C14.R2", fnKey(sf)+"/counter-encoding", sf.Pos(), "counter stored little-endian from bytesCounter", "counter is not LittleEndian.PutUint64(bytesCounter)")
 	}
 	{
@@ -1059,7 +1152,24 @@ func ruleC14(w *World) {
 		okk := len(u) == 1 && strings.Contains(render(u[0].Common().Args[0]), "LittleEndian") && rn(u[0].Common().Args[1]) == want[2]
 		w.check(okk, "C14.R2", fnKey(rf)+"/counter-decoding", rf.Pos(), "counter read little-endian from the last 8 bytes", "counter is not LittleEndian.Uint64 of the last 8 bytes")
 		for _, c := range callsTo(rf, "NewUnauthenticatedCipher") {
-			w.check(rn(c.Common().Args[0]) == want[0] && rn(c.Common().Args[1]) == want[1], "C14.R2", fnKey(rf)+"/cipher-key", c.Pos(), "cipher rebuilt from the stored seed and customizer", "Restore keys the cipher with "+render(c.Common().Args[0])+", "+render(c.Common().Args[1]))
+			// the key material may first be copied into the core's own arrays (a constructor shared with New): an
+			// argument `X.f[:]` stands for what the copy that precedes the call in the same function put there
+			through := func(v ssa.Value) string {
+				got := rn(v)
+				instrs(rf, func(ins ssa.Instruction) {
+					if cp, ok := ins.(*ssa.Call); ok {
+						if b, ok := cp.Call.Value.(*ssa.Builtin); ok && b.Name() == "copy" && cp.Parent() == c.Parent() && instrDominatesFlat(cp, c.(ssa.Instruction)) {
+							if render(cp.Call.Args[0]) == render(v) && strings.HasSuffix(render(v), "[:]") {
+								if _, isArr := deref(sliceBase(v).Type()).Underlying().(*types.Array); isArr || true {
+									got = rn(cp.Call.Args[1])
+								}
+							}
+						}
+					}
+				})
+				return got
+			}
+			w.check(through(c.Common().Args[0]) == want[0] && through(c.Common().Args[1]) == want[1], "C14.R2", fnKey(rf)+"/cipher-key", c.Pos(), "cipher rebuilt from the stored seed and customizer", "Restore keys the cipher with "+render(c.Common().Args[0])+", "+render(c.Common().Args[1]))
 		}
 		// R4: block arithmetic with one constant = 64
 		ctr := "*LittleEndian.Uint64(" + want[2] + ")"
@@ -1069,17 +1179,23 @@ func ruleC14(w *World) {
 			// the quotient is formed in the counter's own 64-bit type and narrowed afterwards: narrowing
 			// first drops the high bits of the byte counter (streams longer than 4 GiB)
 			v := sc[0].Common().Args[1]
+			wide := false
 			for {
+				if hv := helperValue(v); hv != nil {
+					v = hv // computed in an extracted helper
+					continue
+				}
 				if cv, ok := v.(*ssa.Convert); ok {
 					v = cv.X
 					continue
 				}
 				break
 			}
-			wide := false
 			if bo, ok := v.(*ssa.BinOp); ok && bo.Op == token.QUO {
+				// the dividend is 64 bits wide where the quotient is formed, and was never narrowed on its way there
+				// (followed through conversions and through the parameters of extracted helpers to their call sites)
 				if bt, ok := bo.X.Type().Underlying().(*types.Basic); ok && (bt.Kind() == types.Uint64 || bt.Kind() == types.Int64) {
-					wide = true
+					wide = w.neverNarrowed(bo.X, 0)
 				}
 			}
 			w.check(wide, "C14.R4", fnKey(rf)+"/block-count-width", rf.Pos(), "bytes/64 is computed on the 64-bit counter and narrowed to the 32-bit block counter afterwards", "the byte counter is narrowed before the division by the block size: stored states at or beyond 2^32 bytes restore to the wrong block")
@@ -1112,7 +1228,7 @@ func ruleC14(w *World) {
 		instrs(rf, func(ins ssa.Instruction) {
 			if c, ok := ins.(*ssa.Call); ok {
 				if b, ok := c.Call.Value.(*ssa.Builtin); ok && b.Name() == "copy" {
-					d, s := render(c.Call.Args[0]), render(c.Call.Args[1])
+					d, s := render(c.Call.Args[0]), rn(c.Call.Args[1])
 					if strings.HasSuffix(d, ".seed[:]") && s == want[0] || strings.HasSuffix(d, ".customizer[:]") && s == want[1] {
 						cp++
 					}
@@ -1120,6 +1236,23 @@ func ruleC14(w *World) {
 			}
 		})
 		w.check(cp == 2, "C14.R4", fnKey(rf)+"/core-seed", rf.Pos(), "restored core keeps seed and customizer (so Store after Restore round-trips)", "restored core does not keep both seed and customizer")
+	}
+	// R5: a stored state is a value of its own — Store returns memory of the call (a later Read or Store of the same
+	// generator must not change a state handed out earlier), and Restore keeps no reference to the caller's bytes
+	if sf := w.method(prgT, "Store"); sf != nil {
+		ea := w.effects()
+		bad := ""
+		for _, r := range returns(sf) {
+			if len(r.Results) == 0 {
+				continue
+			}
+			for _, rr := range ea.roots(r.Results[0], sf, 0) {
+				if rr.kind != rkFresh {
+					bad = rootDesc(rr)
+				}
+			}
+		}
+		w.check(bad == "", "C14.R5", fnKey(sf)+"/fresh-result", sf.Pos(), "the stored state is memory of this call", "Store returns memory that is "+bad+": the state handed out shares storage with the generator (or with another stored state), so it changes when the generator moves on")
 	}
 	// R3 Read
 	var coreT *types.Named
@@ -1488,4 +1621,45 @@ func canonSlices(s, base, total string) string {
 		i++
 	}
 	return b.String()
+}
+
+// neverNarrowed: no conversion to an integer type narrower than 64 bits lies on the way of v from where it was produced
+// (followed through conversions and, for parameters of helpers the rules do not know, to the arguments of all call sites).
+func (w *World) neverNarrowed(v ssa.Value, d int) bool {
+	if d > 8 {
+		return false
+	}
+	switch x := v.(type) {
+	case *ssa.Convert:
+		if bt, ok := x.Type().Underlying().(*types.Basic); ok && bt.Info()&types.IsInteger != 0 {
+			switch bt.Kind() {
+			case types.Uint64, types.Int64, types.Uint, types.Int, types.Uintptr:
+			default:
+				return false
+			}
+		}
+		return w.neverNarrowed(x.X, d+1)
+	case *ssa.ChangeType:
+		return w.neverNarrowed(x.X, d+1)
+	case *ssa.Parameter:
+		fn := x.Parent()
+		if !isNewHelper(fn) {
+			return true
+		}
+		pi := paramIndex(fn, x)
+		for _, c := range w.callersOfCached(fn) {
+			if pi < 0 || pi >= len(c.Common().Args) || !w.neverNarrowed(c.Common().Args[pi], d+1) {
+				return false
+			}
+		}
+		return true
+	case *ssa.Phi:
+		for _, e := range x.Edges {
+			if !w.neverNarrowed(e, d+1) {
+				return false
+			}
+		}
+		return true
+	}
+	return true
 }
